@@ -87,7 +87,11 @@ impl StrategyPlanner {
         let (action, source_checksum, dest_checksum) = if source.is_dir {
             // For directories, just check existence (no metadata needed)
             let exists = transport.exists(&dest_path).await.unwrap_or(false);
-            let action = if exists {
+            // Something that is not a directory does not satisfy a source directory:
+            // plan the creation, which then fails visibly instead of being skipped
+            let is_non_dir = exists
+                && matches!(transport.metadata(&dest_path).await, Ok(meta) if !meta.is_dir());
+            let action = if exists && !is_non_dir {
                 SyncAction::Skip
             } else {
                 SyncAction::Create
